@@ -27,6 +27,8 @@ IntSeq = z3.SeqSort(z3.IntSort())
 
 ZERO_ROW = z3.Const('ZERO_ROW', Row)
 Gather = z3.Function('Gather', RowSeq, IntSeq, RowSeq)
+# InRange(idx, n): every element of idx is a valid index into n rows
+InRange = z3.Function('InRange', IntSeq, z3.IntSort(), z3.BoolSort())
 
 MASK_KEY = '__mask__'
 
@@ -157,12 +159,11 @@ class ColV(Val):
       # numpy fancy indexing with an int array: every index must be in range
       iseq = idx.cell(ctx).seq
       n = z3.Length(self.rows)
-      j = ctx.fresh('j')
-      ctx.oblige('gather.range', z3.ForAll(
-          [j], z3.Implies(z3.And(0 <= j, j < z3.Length(iseq)),
-                          z3.And(iseq[j] >= -n, iseq[j] < n))),
-          kind='definedness', detail='IndexError: fancy index out of bounds')
-      return ColV(t, self.key, Gather(self.rows, iseq))
+      ctx.oblige('gather.range', InRange(iseq, n),
+                 kind='definedness', detail='IndexError: fancy index out of bounds')
+      g = Gather(self.rows, iseq)
+      ctx.assume(z3.Length(g) == z3.Length(iseq))
+      return ColV(t, self.key, g)
     raise Unsupported('column index')
 
   def getattr(self, ctx, name):
